@@ -12,7 +12,7 @@ RULE = ("input classes of the property, each run through the real eval in a work
         "lexer and parser stages of a sample are compared with Lexer.v/Parser.v (tokens with offsets, trees, error "
         "kinds), the compile and run stages with Compiler.v/VM.v. non-trivial = distinct text")
 ASSUMPTIONS = ["native stack and memory exhaustion cannot be exhibited by the model; they are only observable in the worker process",
-               "front_end_no_panic for the compiler and vm_no_panic are covered by C02 (verify_sound) + per-program validation, not by a single whole-pipeline theorem"]
+               "eval_never_panics (front_certifies + eval_total) is a whole-pipeline theorem about the MODEL: every source text, every budget gives a value, an error value or out-of-budget; the implementation's panics and aborts (which the model cannot exhibit) are searched for in the worker process"]
 NOTES = ["proved: parse_terminates (all token lists), parse_no_panic, parse_total, lexer progress/coverage; compiler is structurally recursive (no fuel)"]
 
 DIRECTED = [
